@@ -6,7 +6,7 @@
      {"ev":"reset","case":n,"hdr":{...}}
      {"ev":"connected"}                                          the websocket handshake succeeded
      {"ev":"cmd","verb":v,"arg":a,"tk":"none"|"nonnum"|"id","id":n,...}   a text command was sent (abstract class, RemoteTable)
-     {"ev":"reply","pol":"ok"|"err"|"unknown","rverb":v,"id":n,"old":m}   a text frame starting ok: / err: / unknown command
+     {"ev":"reply","pol":"ok"|"err"|"unknown","rverb":v,"id":n,"old":m,"flag":"true"|"false"|"","saved":"equal"|"differs"|""}   a text frame starting ok: / err: / unknown command
      {"ev":"bin","type":"DltMsgs","id":n,"n":k}                   asynchronous stream data (k = 0: end marker of a query)
      {"ev":"bin_other","n":k} {"ev":"async_text"}                 other asynchronous frames (never replies)
      {"ev":"end"}                                                the reply of the final sentinel command was received
@@ -63,6 +63,10 @@ Reply ==
   /\ LET c == Head(pend) p == Cur.pol IN
      /\ p \in Pol(c.verb, c.arg, c.tk, file, plug, resumed, TLive(c), TOp(c))   \* polarity per tracked state
      /\ (p = "unknown" \/ Cur.rverb = c.verb)                                  \* the reply names its command
+     /\ (c.verb = "plugin_cmd" /\ p = "ok" =>                                  \* `ok: plugin_cmd <bool>`: executed or not
+            /\ Cur.flag \in {"true", "false"}
+            /\ (c.arg \in SaveNeverArgs => Cur.flag = "false")
+            /\ (Cur.flag = "true" => Cur.saved = "equal"))                     \* the saved file holds the transferred bytes
      /\ pend' = Tail(pend)
      /\ IF p # "ok" THEN UNCHANGED <<file, plug, resumed, paused, live, maxId>>
         ELSE IF c.verb = "open" THEN
